@@ -216,11 +216,14 @@ pub struct Scenario {
     pub umask: u32,
     pub nofile: Option<u64>,
     pub fs: Fs,
+    /// run the program as this (uid, gid) instead of root; entries without an explicit owner belong to it
+    #[serde(default)]
+    pub run_as: Option<(u32, u32)>,
 }
 
 impl Scenario {
     pub fn new(name: &str, tree: Vec<Entry>, args: &[&str]) -> Scenario {
-        Scenario { name: name.to_string(), tree, prog: Prog::Xcp, args: args.iter().map(|s| s.to_string()).collect(), cwd: String::new(), umask: 0o022, nofile: None, fs: Fs::Ext4 }
+        Scenario { name: name.to_string(), tree, prog: Prog::Xcp, args: args.iter().map(|s| s.to_string()).collect(), cwd: String::new(), umask: 0o022, nofile: None, fs: Fs::Ext4, run_as: None }
     }
     pub fn entry(&self, path: &str) -> Option<&Entry> {
         self.tree.iter().find(|e| e.path == path)
@@ -301,6 +304,26 @@ impl Worker {
         let root = self.root(s.fs);
         remove_tree(&root);
         build_tree(&root, &s.tree)?;
+        if let Some((u, g)) = s.run_as {
+            // the sandbox belongs to the unprivileged user, except entries with an explicit owner
+            let mut paths: Vec<std::path::PathBuf> = vec![std::path::PathBuf::from(&root)];
+            for e in &s.tree {
+                if e.owner.is_none() {
+                    paths.push(join(&root, &unesc(&e.path)));
+                }
+            }
+            for p in paths {
+                let c = cstr(&p);
+                unsafe { libc::lchown(c.as_ptr(), u, g) };
+            }
+            // lchown clears set-id bits and touches ctime only; restore modes that carry set-id bits
+            for e in &s.tree {
+                if e.owner.is_none() && !matches!(e.kind, Kind::Symlink(_)) && e.eff_mode() & 0o7000 != 0 {
+                    let c = cstr(&join(&root, &unesc(&e.path)));
+                    unsafe { libc::chmod(c.as_ptr(), e.eff_mode() as libc::mode_t) };
+                }
+            }
+        }
         Ok(root)
     }
     pub fn launch_for(&self, s: &Scenario) -> Launch {
@@ -316,6 +339,7 @@ impl Worker {
             stdout_path: format!("{}/out/stdout", self.base_ext4),
             stderr_path: format!("{}/out/stderr", self.base_ext4),
             slot: self.id,
+            run_as: s.run_as,
         }
     }
     /// build the sandbox and execute under the supervisor
